@@ -101,7 +101,8 @@ def gen(rng, tier, quarantine=()):
         if "no-completion-raises" not in quarantine and rng.random() < 0.12 and sels[0].get("focus") and not op.get("raw") and op["kind"] == "probe":
             ops.append({"op": "stage", "id": pid, "kind": rng.choice(["min", "max", "last"]),
                         "cap": sels[0]["focus"]["as"], "bare": rng.random() < 0.7})
-        if "no-failing-subscriber" not in quarantine and rng.random() < (0.3 if op.get("raw") else 0.1) and op["kind"] == "probe":
+        if "no-failing-subscriber" not in quarantine and rng.random() < (0.3 if op.get("raw") else 0.1) and op["kind"] == "probe" \
+                and not any(o.get("raises") for o in ops):  # one failing subscriber per history (see DESIGN 3.4)
             # a subscriber of the probe itself fails on its k-th event / record (for a total probe:
             # while the outermost call is being wound up): the context must still be put back
             ops.append({"op": "stage", "id": pid, "kind": "whole", "cap": None, "raises": rng.choice([1, 1, 2, 3])})
